@@ -14,7 +14,7 @@ import hashlib
 VERIF = os.path.dirname(os.path.dirname(os.path.abspath(__file__)))
 REPO = os.environ.get('VERIF_REPO', '/repo')
 WORK = os.path.join(VERIF, '.work')
-TARGET = os.path.join(VERIF, '.target')
+TARGET = os.environ.get('VERIF_TARGET') or os.path.join(VERIF, '.target')
 NCPU = os.cpu_count() or 8
 
 LEVELS = ('exploration', 'fault_enumeration', 'model_checking', 'proof', 'translation_validation', 'other')
